@@ -33,7 +33,7 @@ from txtorcon.attacher import PriorityAttacher
 PROPERTY = 'C09'
 
 STREAM_KINDS = ['host', 'exit', 'exit-inside', 'ip', 'resolve', 'internal', 'non-new']
-ANSWERS = ['built', 'launched', 'extended', 'failed', 'closed', 'unknown', 'noncircuit', 'zero', 'false', 'emptystr', 'emptylist',
+ANSWERS = ['built', 'launched', 'extended', 'guard_wait', 'failed', 'closed', 'unknown', 'noncircuit', 'zero', 'false', 'emptystr', 'emptylist',
            'none', 'dna', 'raise', 'fresh']
 FALSY = {'zero': 0, 'false': False, 'emptystr': '', 'emptylist': []}
 DELIVERY = ['now', 'deferred', 'coroutine']
@@ -115,6 +115,13 @@ def run_partA(kinds, answer, delivery):
         objs = {}
         if answer in ('launched', 'extended'):
             build_circuit(impl, 2, answer.upper())
+            objs[answer] = st.circuits[2]
+        elif answer == 'guard_wait':
+            # all hops finished, but Tor is waiting to see whether a better guard works: not BUILT (yet)
+            build_circuit(impl, 2, 'EXTENDED')
+            impl.event('CIRC', M.circ_line(2, 'EXTENDED', 2))
+            impl.event('CIRC', M.circ_line(2, 'EXTENDED', 3))
+            impl.event('CIRC', M.circ_line(2, 'GUARD_WAIT', 3))
             objs[answer] = st.circuits[2]
         elif answer in ('failed', 'closed'):
             build_circuit(impl, 2, 'BUILT' if answer == 'closed' else 'EXTENDED')
@@ -209,7 +216,7 @@ def run_partA(kinds, answer, delivery):
                 pass
             elif asked != 1:
                 viol.append(('attacher-consulted-%d-times' % asked, kind, 'stream %d' % sid))
-        invalid = answer in ('launched', 'extended', 'failed', 'closed', 'unknown', 'noncircuit', 'raise') or answer in FALSY
+        invalid = answer in ('launched', 'extended', 'guard_wait', 'failed', 'closed', 'unknown', 'noncircuit', 'raise') or answer in FALSY
         n_attachable = sum(1 for sid_, k in zip(sids, kinds) if k not in ('exit', 'exit-upper', 'non-new') and sid_ in att.calls)
         if invalid and n_attachable and len(reported) < n_attachable:
             viol.append(('invalid-answer-not-reported', answer, 'attacher answered %s for %d streams, %d reports: %r'
